@@ -20,11 +20,16 @@ pub enum Case {
         msg: RMsg,
         #[serde(with = "crate::util::hexser")]
         suffix: Vec<u8>,
+        /// index of a filter configuration (0 = none): skipping junk must not depend on whether the message is then kept
+        #[serde(default)]
+        filter: u8,
     },
     Stream {
         msgs: Vec<RMsg>,
         #[serde(with = "crate::util::hexser_vec")]
         junks: Vec<Vec<u8>>,
+        #[serde(default)]
+        filter: u8,
     },
 }
 
@@ -64,7 +69,7 @@ fn check_search(buf: &[u8]) -> CheckResult {
     }
 }
 
-fn check_parse(junk: &[u8], msg: &RMsg, suffix: &[u8]) -> CheckResult {
+fn check_parse(junk: &[u8], msg: &RMsg, suffix: &[u8], filter: u8) -> CheckResult {
     if refcodec::find_pattern(junk).is_some() || msg.storage.is_none() {
         return Ok(Pass::new(false).class("outside-domain"));
     }
@@ -85,11 +90,33 @@ fn check_parse(junk: &[u8], msg: &RMsg, suffix: &[u8]) -> CheckResult {
         }
         _ => return Err(bad("result", format!("alone: {} / with junk: {}", short_dbg(&a), short_dbg(&b)))),
     }
+    // the same with a filter configuration: kept or filtered out, junk in front changes neither the result nor the remainder
+    let f = crate::oracle::filter_by_index(filter);
+    let mut filtered_out = false;
+    if let Some(f) = &f {
+        let a = guard(|| dlt_message(&plain, Some(f), true).map(|(rest, pm)| (rest.to_vec(), pm))).map_err(|p| Violation::from_panic("dlt_message with filter", &p))?;
+        let b = guard(|| dlt_message(&with, Some(f), true).map(|(rest, pm)| (rest.to_vec(), pm))).map_err(|p| Violation::from_panic("dlt_message with filter and junk prefix", &p))?;
+        match (&a, &b) {
+            (Ok((ra, ParsedMessage::Item(ma))), Ok((rb, ParsedMessage::Item(mb)))) => {
+                msg_eq_bits(ma, mb).map_err(|d| bad("filter:message", d))?;
+                if ra != rb || rb != suffix {
+                    return Err(bad("filter:remainder", format!("kept by filter #{}: {} bytes left vs {} bytes left, suffix has {}", filter, ra.len(), rb.len(), suffix.len())));
+                }
+            }
+            (Ok((ra, ParsedMessage::FilteredOut(na))), Ok((rb, ParsedMessage::FilteredOut(nb)))) => {
+                filtered_out = true;
+                if na != nb || ra != rb || rb != suffix {
+                    return Err(bad("filter:remainder", format!("filtered out by filter #{}: FilteredOut({}) with {} bytes left vs FilteredOut({}) with {} bytes left, suffix has {}", filter, na, ra.len(), nb, rb.len(), suffix.len())));
+                }
+            }
+            _ => return Err(bad("filter:result", format!("filter #{}: alone: {} / with junk: {}", filter, short_dbg(&a), short_dbg(&b)))),
+        }
+    }
     let partial = junk.ends_with(b"D") || junk.ends_with(b"DL") || junk.ends_with(b"DLT");
-    Ok(Pass::new(!junk.is_empty()).class("parse").class_if(partial, "junk-ends-with-partial-pattern").class_if(junk.len() >= 16, "junk>=16").class_if(junk.is_empty(), "no-junk"))
+    Ok(Pass::new(!junk.is_empty()).class_if(f.is_some(), "with-filter").class_if(filtered_out, "filtered-out-behind-junk").class("parse").class_if(partial, "junk-ends-with-partial-pattern").class_if(junk.len() >= 16, "junk>=16").class_if(junk.is_empty(), "no-junk"))
 }
 
-fn check_stream(msgs: &[RMsg], junks: &[Vec<u8>]) -> CheckResult {
+fn check_stream(msgs: &[RMsg], junks: &[Vec<u8>], filter: u8) -> CheckResult {
     if junks.iter().any(|j| refcodec::find_pattern(j).is_some()) || msgs.iter().any(|m| m.storage.is_none()) {
         return Ok(Pass::new(false).class("outside-domain"));
     }
@@ -118,19 +145,53 @@ fn check_stream(msgs: &[RMsg], junks: &[Vec<u8>]) -> CheckResult {
     for (i, (g, m)) in got.iter().zip(msgs.iter()).enumerate() {
         msg_eq_bits(&to_crate(m), g).map_err(|d| viol!("stream:message", "message {} of the stream differs: {}", i, d))?;
     }
+    // with a filter: one result per message, in order — the kept ones equal to the originals, the dropped ones with their payload length
+    let f = crate::oracle::filter_by_index(filter);
+    let mut dropped = 0;
+    if let Some(f) = &f {
+        let mut input = &buf[..];
+        let mut n = 0usize;
+        for _ in 0..msgs.len() + 2 {
+            let r = guard(|| dlt_message(input, Some(f), true)).map_err(|p| Violation::from_panic("dlt_message with filter over a stream with junk", &p))?;
+            match r {
+                Ok((rest, pm)) => {
+                    let Some(m) = msgs.get(n) else {
+                        return Err(viol!("stream:filter:count", "filtered stream parse of {} messages yields more than {} results ({})", msgs.len(), msgs.len(), hex_short(&buf)));
+                    };
+                    match pm {
+                        ParsedMessage::Item(g) => msg_eq_bits(&to_crate(m), &g).map_err(|d| viol!("stream:filter:message", "message {} of the filtered stream differs: {}", n, d))?,
+                        ParsedMessage::FilteredOut(k) => {
+                            dropped += 1;
+                            if k != m.len as usize - m.headers_len() {
+                                return Err(viol!("stream:filter:payload-length", "result {} of the filtered stream is FilteredOut({}) but message {} has a payload of {} bytes", n, k, n, m.len as usize - m.headers_len()));
+                            }
+                        }
+                        ParsedMessage::Invalid => return Err(viol!("stream:filter:invalid", "result {} of the filtered stream is Invalid", n)),
+                    }
+                    n += 1;
+                    input = rest;
+                }
+                Err(_) => break,
+            }
+        }
+        if n != msgs.len() {
+            return Err(viol!("stream:filter:count", "stream of {} messages with junk between them yielded {} results with filter #{} ({})", msgs.len(), n, filter, hex_short(&buf)));
+        }
+    }
     let some_junk = junks.iter().any(|j| !j.is_empty());
-    Ok(Pass::new(some_junk && msgs.len() >= 2).class("stream").class_if(msgs.len() >= 3, "stream>=3-messages"))
+    Ok(Pass::new(some_junk && msgs.len() >= 2).class_if(f.is_some(), "with-filter").class_if(dropped > 0, "filtered-out-behind-junk").class("stream").class_if(msgs.len() >= 3, "stream>=3-messages"))
 }
 
 pub fn check(c: &Case) -> CheckResult {
     match c {
         Case::Search(b) => check_search(b),
-        Case::Parse { junk, msg, suffix } => check_parse(junk, msg, suffix),
-        Case::Stream { msgs, junks } => check_stream(msgs, junks),
+        Case::Parse { junk, msg, suffix, filter } => check_parse(junk, msg, suffix, *filter),
+        Case::Stream { msgs, junks, filter } => check_stream(msgs, junks, *filter),
     }
 }
 
-fn strategy() -> impl Strategy<Value = Case> {
+pub fn strategy() -> impl Strategy<Value = Case> {
+    let fidx = || prop_oneof![1 => Just(0u8), 1 => 1u8..8];
     let stored = || g::message(g::MsgParams { storage: g::StorageMode::Always, large: false, ..Default::default() });
     let planted = (vec(prop::sample::select(vec![b'D', b'L', b'T', 1u8, 0]), 0..40), vec((any::<u16>(), Just(b"DLT\x01".to_vec())), 0..3)).prop_map(|(mut b, plants)| {
         for (p, pat) in plants {
@@ -147,9 +208,9 @@ fn strategy() -> impl Strategy<Value = Case> {
             b.splice(k..k, b"DLT\x01".iter().cloned());
             Case::Search(b)
         }),
-        4 => (junk(), prop_oneof![8 => stored(), 1 => g::message(g::MsgParams { storage: g::StorageMode::Always, ..Default::default() })], g::suffix())
-            .prop_map(|(junk, msg, suffix)| Case::Parse { junk, msg, suffix }),
-        2 => (vec(stored(), 1..6), vec(junk(), 7)).prop_map(|(msgs, junks)| Case::Stream { msgs, junks }),
+        4 => (junk(), prop_oneof![8 => stored(), 1 => g::message(g::MsgParams { storage: g::StorageMode::Always, ..Default::default() })], g::suffix(), fidx())
+            .prop_map(|(junk, msg, suffix, filter)| Case::Parse { junk, msg, suffix, filter }),
+        2 => (vec(stored(), 1..6), vec(junk(), 7), fidx()).prop_map(|(msgs, junks, filter)| Case::Stream { msgs, junks, filter }),
     ]
 }
 
@@ -157,7 +218,9 @@ pub fn run(run: &Run) {
     run.rule(
         "search: arbitrary and low-entropy {D,L,T,01} strings with 0..3 planted patterns (also 70 KB inputs) against a naive first-occurrence search; \
          parse: junk (pattern scrubbed out by construction; tails that are partial patterns encouraged) ++ message ++ suffix must parse to the same \
-         message and remainder as message ++ suffix; stream: junk0 m1 junk1 ... mk junk_k parsed repeatedly must yield exactly m1..mk; non-trivial = \
+         message and remainder as message ++ suffix, without a filter and with one of 7 filter configurations (kept or FilteredOut alike); stream: \
+         junk0 m1 junk1 ... mk junk_k parsed repeatedly must yield exactly m1..mk (with a filter: one result per message in order, kept = original, \
+         dropped = its payload length); non-trivial = \
          pattern found / junk non-empty / stream of >= 2 messages with junk; distinct by the whole case",
     );
     run.assume("'DLT\\x01' has no border, so junk without a full pattern cannot create an earlier occurrence together with the message start");
